@@ -67,7 +67,7 @@ func runReplay(path, out string, c *collector, m *meta) {
 		fmt.Printf("replay conn: remote=%s local=%s readOK=%v payload=%q\n", addrStr(o.Remote), addrStr(o.Local), o.ReadOK, o.Payload)
 		m.Kinds = append(m.Kinds, writeKind(out, "ccases", "ccase", "ccase_model_ok", "ccase_verdict",
 			[]string{coqCcase(in, sr, sl, o)}, []any{ccaseJSON{"conn", rp.Via, rp.In, rp.Cuts, o.Note}}, 150, ""))
-	case "e2e":
+	case "e2e", "timeout":
 		replayE2E(rp, out, m)
 	default:
 		fmt.Println("replay: unknown kind", rp.Kind)
